@@ -17,6 +17,11 @@
 #include <opm/input/eclipse/Schedule/Action/SimulatorUpdate.hpp>
 #include <opm/input/eclipse/Schedule/Schedule.hpp>
 #include "sched_includes.hpp"
+#include <opm/input/eclipse/Schedule/UDQ/UDQConfig.hpp>
+#include <opm/input/eclipse/Schedule/UDQ/UDQState.hpp>
+#include <opm/input/eclipse/Schedule/SummaryState.hpp>
+#include <opm/input/eclipse/EclipseState/Grid/RegionSetMatcher.hpp>
+#include <opm/input/eclipse/Schedule/MSW/SegmentMatcher.hpp>
 
 using namespace Opm;
 static vf::Run* R;
@@ -24,7 +29,7 @@ static Parser* P;
 static std::shared_ptr<Python> g_python;
 static std::unique_ptr<EclipseState> g_es;
 
-struct Body { std::string name, text; bool wpimult = false; bool shuts_all = false; };
+struct Body { std::string name, text; bool wpimult = false; bool shuts_all = false; bool udq_sem = false; };
 static std::vector<Body> bodies() {
     return {
         {"WELOPEN_q", "WELOPEN\n '?' SHUT /\n/\n"},
@@ -56,6 +61,10 @@ static std::vector<Body> bodies() {
         {"WLIST", "WLIST\n '*L1' NEW P1 P2 /\n/\n"},
         {"UDQ_assign", "UDQ\n ASSIGN WUX 3.0 /\n/\n"},
         {"UDQ_define", "UDQ\n DEFINE FUY FOPR * 2 /\n/\n"},
+        // '?' in a well-level ASSIGN: applyAction stores ONE record carrying the matching-well list, the inlined text one record
+        // per well; the udq member is therefore compared by what it EVALUATES to at every report step (udq_trace), all other members canonically
+        {"UDQ_assign_q", "UDQ\n ASSIGN WUX '?' 5.0 /\n/\n", false, false, true},
+        {"UDQ_assign_q_then_all", "UDQ\n ASSIGN WUX '?' 6.0 /\n ASSIGN WUZ 2.0 /\n/\n", false, false, true},
         {"GRUPTREE", "GRUPTREE\n 'G3' 'G1' /\n/\n"},
         {"WTMULT_q", "WTMULT\n '?' ORAT 0.5 /\n/\n"},
         {"WGRUPCON_q", "WGRUPCON\n '?' YES 1.5 OIL /\n/\n"},
@@ -121,6 +130,27 @@ static const char* member_name(int i) {
     return (i >= 0 && i < (int)(sizeof n / sizeof *n)) ? n[i] : "member?";
 }
 
+
+// what the UDQ configurations of a schedule evaluate to: WUX/WUZ of every well and FUY after UDQConfig::eval of every report step, on fresh state objects
+static std::string udq_trace(const Schedule& S) {
+    SummaryState st(TimeService::from_time_t(S.getStartTime()), 0.0); UDQState us(S.getUDQConfig(0).params().undefinedValue());
+    st.update("FOPR", 3.0);
+    std::string t;
+    // UDQConfig::eval consumes the (mutable) list of pending assignments: evaluate COPIES, one per distinct configuration object, so that
+    // states sharing one configuration share one copy (as a simulation run does) and the schedule under test is left untouched
+    std::map<const UDQConfig*, UDQConfig> copies;
+    for (size_t r = 1; r < S.size(); ++r) {
+        const UDQConfig* orig = &S.getUDQConfig(r - 1);
+        auto it = copies.find(orig); if (it == copies.end()) it = copies.emplace(orig, *orig).first;
+        try { it->second.eval(r, S.wellMatcher(r), S.segmentMatcherFactory(r), []() { return std::unique_ptr<RegionSetMatcher>{}; }, st, us); }
+        catch (const std::exception& e) { t += "step " + std::to_string(r) + ": eval throws " + std::string(e.what()).substr(0, 80) + "; "; continue; }
+        t += "step " + std::to_string(r) + ":";
+        for (const auto& wn : S.wellNames(r)) for (const char* q : {"WUX", "WUZ"}) t += std::string(" ") + wn + "." + q + "=" + (us.has_well_var(wn, q) ? vf::fmt17(us.get_well_var(wn, q)) : std::string("-")) + "/" + (st.has_well_var(wn, q) ? vf::fmt17(st.get_well_var(wn, q)) : std::string("-"));
+        t += std::string(" FUY=") + (us.has("FUY") ? vf::fmt17(us.get("FUY")) : std::string("-")) + "; ";
+    }
+    return t;
+}
+
 // runs one case: background (bg1,bg2), bodies (b1,b2), application sequence
 static void run_case(const std::vector<Body>& B, int ib1, int ib2, int ibg1, int ibg2, const std::vector<App>& apps, const std::string& casestr) {
     static auto BG = background();
@@ -132,7 +162,7 @@ static void run_case(const std::vector<Body>& B, int ib1, int ib2, int ibg1, int
     for (size_t k = 0; k < S->size(); ++k) { pre_canon.push_back(vf::canon((*S)[k])); pre_obs.push_back(obs::sched_state(*S, k)); }
     std::vector<std::string> inl(NSTEPS + 1);
     std::string rp = "{\"case\": " + vf::jstr(casestr) + "}";
-    int min_n = 1000; bool wpimult_any = false, shuts_any = false;
+    int min_n = 1000; bool wpimult_any = false, shuts_any = false, udq_sem_any = false;
     { std::set<int> wp; for (auto& a : apps) if (B[a.action == 0 ? ib1 : ib2].wpimult) { if (!wp.insert(a.n).second) { R->count("excluded_per_report_step_semantics"); return; } } }
     for (size_t ai = 0; ai < apps.size(); ++ai) {
         const App& a = apps[ai];
@@ -158,7 +188,7 @@ static void run_case(const std::vector<Body>& B, int ib1, int ib2, int ibg1, int
         if (ai > 0 && (wpimult_any || shuts_any)) { R->count("excluded_per_report_step_semantics"); return; }
         inl[a.n] += subst(body.text, M);
         min_n = std::min(min_n, a.n);
-        wpimult_any |= body.wpimult; shuts_any |= body.shuts_all;
+        wpimult_any |= body.wpimult; shuts_any |= body.shuts_all; udq_sem_any |= body.udq_sem;
         auto Rf = build(make_deck(t1, t2, BG[ibg1].second, BG[ibg2].second, inl));
         if (!Rf) { R->violation("C04:inlined-deck-rejected:" + body.name, "applyAction succeeded but the deck with the body inlined is rejected; case " + casestr, rp); return; }
         if (S->size() != Rf->size()) { R->violation("C04:number-of-steps:" + body.name, "schedule has " + std::to_string(S->size()) + " states after applyAction, reference " + std::to_string(Rf->size()) + "; case " + casestr, rp); return; }
@@ -180,9 +210,18 @@ static void run_case(const std::vector<Body>& B, int ib1, int ib2, int ibg1, int
                 x.events().clearEvent(ScheduleEvents::ACTIONX_WELL_EVENT); y.events().clearEvent(ScheduleEvents::ACTIONX_WELL_EVENT);
                 for (const auto& wn : S->wellNames(k)) { x.wellgroup_events().clearEvent(wn, ScheduleEvents::ACTIONX_WELL_EVENT); y.wellgroup_events().clearEvent(wn, ScheduleEvents::ACTIONX_WELL_EVENT); }
             }
+            if (body.udq_sem || udq_sem_any) {
+                // representation of a '?' assignment differs by design (see bodies()): compare by evaluation, then take the member out of the canonical comparison
+                if (k + 1 == S->size()) { const std::string tx = udq_trace(*S), ty = udq_trace(*Rf); R->count("udq_traces_compared"); if (tx != ty) { R->violation("C04:udq-evaluates-differently:" + tag, "UDQ values after applyAction(n=" + std::to_string(a.n) + ") differ from the inlined reference: " + first_diff(tx, ty) + "; case " + casestr, rp); break; } }
+                if (M.empty() && x.udq().size() > y.udq().size()) R->violation("C04:udq-node-without-assignment:empty-matching-set", "state " + std::to_string(k) + ": UDQ ASSIGN of a well quantity with '?' and NO matching wells registers the quantity (" + std::to_string(x.udq().size()) + " quantities, no assignment record) where the inlined text defines nothing (" + std::to_string(y.udq().size()) + "); case " + casestr, rp);
+                else if (x.udq().size() != y.udq().size()) { R->violation("C04:udq-quantity-count:" + tag, "state " + std::to_string(k) + ": " + std::to_string(x.udq().size()) + " UDQ quantities after applyAction, reference " + std::to_string(y.udq().size()) + "; case " + casestr, rp); break; }
+                x.udq.update(y.udq());
+            }
             std::string cx = vf::canon(x), cy = vf::canon(y);
             if (cx != cy) { R->violation(std::string("C04:") + (at_an_application_step ? "state-n" : "later-state") + "-differs:" + tag + ":" + member_name(vf::first_diff_member(cx, cy)), "state " + std::to_string(k) + " after applyAction(n=" + std::to_string(a.n) + ") differs from the inlined reference: " + first_diff(cx, cy) + "; case " + casestr, rp); break; }
-            if (!at_an_application_step) { std::string ox = obs::sched_state(*S, k), oy = obs::sched_state(*Rf, k); if (ox != oy) { R->violation("C04:later-state-queries-differ:" + tag, "state " + std::to_string(k) + " answers public queries differently from the inlined reference: " + first_diff(ox, oy) + "; case " + casestr, rp); break; } }
+            if (!at_an_application_step) { std::string ox = obs::sched_state(*S, k), oy = obs::sched_state(*Rf, k);
+                if (body.udq_sem || udq_sem_any) { for (std::string* o : {&ox, &oy}) { auto p1 = o->find(" udq:"), p2 = o->find(" udq_active"); if (p1 != std::string::npos && p2 != std::string::npos && p2 > p1) o->erase(p1, p2 - p1); } }    // record layout of '?' assignments: compared by udq_trace instead
+                if (ox != oy) { R->violation("C04:later-state-queries-differ:" + tag, "state " + std::to_string(k) + " answers public queries differently from the inlined reference: " + first_diff(ox, oy) + "; case " + casestr, rp); break; } }
         }
         R->observe(vf::fnv(vf::canon((*S)[S->size() - 1]), vf::fnv(casestr.substr(0, casestr.find('|')))));
     }
